@@ -285,6 +285,21 @@ func ctxChecker(next fox.HandlerFunc) fox.HandlerFunc {
 	}
 }
 
+var ctxNoQueryBad string
+
+// ctxNoQueryHandler serves a request that has no query string, twice asks for its (empty) query values, and then writes
+// into the returned map as handlers do to pass defaults on; the next such request must start empty again
+func ctxNoQueryHandler(c fox.Context) {
+	for i := 0; i < 2; i++ {
+		if q := c.QueryParams(); len(q) != 0 || c.QueryParam("page") != "" || c.QueryParam("q") != "" {
+			ctxNoQueryBad = fmt.Sprintf("a request without query string sees query values %v", q)
+		}
+	}
+	c.QueryParams().Set("page", c.Param("id"))
+	c.QueryParams().Add("q", "left-behind")
+	c.Writer().WriteHeader(204)
+}
+
 func ctxRouteHandler(c fox.Context) {
 	p := ctxProbeOf(c)
 	if p == nil {
@@ -325,10 +340,30 @@ func ctxRouteHandler(c fox.Context) {
 	case 'c', 'I':
 		p.clone = c.Clone()
 		p.sub = ctxShowView(p.clone)
+		ctxCloneHeaders(p, c, p.clone)
 		p.run.mu.Lock()
 		p.run.clones = append(p.run.clones, p)
 		p.run.mu.Unlock()
 	}
+}
+
+// ctxCloneHeaders: the response headers of a clone are a copy taken when it was made - what the original sets or deletes
+// afterwards does not show in the clone, and what is set on the clone stays on the clone (and off the original)
+func ctxCloneHeaders(p *ctxProbe, orig, cl fox.Context) {
+	oh, ch := orig.Writer().Header(), cl.Writer().Header()
+	oh.Set("X-After-Clone", "1")
+	if got := cl.Writer().Header().Get("X-After-Clone"); got != "" {
+		p.fail("a header set on the original after Clone() shows in the clone")
+	}
+	oh.Del("X-After-Clone")
+	ch.Set("X-On-Clone", "1")
+	if got := cl.Writer().Header().Get("X-On-Clone"); got != "1" {
+		p.fail("a header set on the clone is gone at the next access (%q)", got)
+	}
+	if got := orig.Writer().Header().Get("X-On-Clone"); got != "" {
+		p.fail("a header set on the clone shows in the original")
+	}
+	cl.Writer().Header().Del("X-On-Clone")
 }
 
 func ctxRequest(p *ctxProbe, k int, method, path string) *http.Request {
@@ -348,6 +383,10 @@ func newCtxRun() (*ctxRun, error) {
 		return nil, err
 	}
 	if _, err = r.Handle("GET", "/u/{id}", ctxRouteHandler); err != nil {
+		return nil, err
+	}
+	// requests WITHOUT a query string: the values a handler adds to what QueryParams returned belong to its own request
+	if _, err = r.Handle("GET", "/noq/{id}", ctxNoQueryHandler); err != nil {
 		return nil, err
 	}
 	if _, err = r.Handle("GET", "/ig/{id}", ctxRouteHandler, fox.WithIgnoreTrailingSlash(true)); err != nil {
@@ -448,6 +487,14 @@ func (run *ctxRun) op(op byte, k int) string {
 		}
 	}
 	run.r.ServeHTTP(w, req)
+	if k%3 == 0 {
+		// an auxiliary request without query string (no probe attached: the checker middleware lets it pass)
+		ctxNoQueryBad = ""
+		run.r.ServeHTTP(newRecWriter(), newReq("GET", "example.com", "/noq/"+tok))
+		if ctxNoQueryBad != "" {
+			p.fail("%s", ctxNoQueryBad)
+		}
+	}
 	if p.handlers != 1 {
 		p.fail("the checker ran %d times", p.handlers)
 	}
@@ -497,6 +544,7 @@ func (run *ctxRun) lookupOp(p *ctxProbe) string {
 		case 'L':
 			p.clone = cc.Clone()
 			p.sub = ctxShowView(p.clone)
+			ctxCloneHeaders(p, cc, p.clone)
 			run.mu.Lock()
 			run.clones = append(run.clones, p)
 			run.mu.Unlock()
